@@ -158,12 +158,17 @@ def occupancy_splits(text, input_ids, tensors):
 
 
 def leader_follower_ok(text, part, input_ids, tensors, out):
-    """-> list of human-readable defects (empty = the side condition holds)."""
+    """-> list of human-readable defects (empty = the side condition holds).
+
+    Per level R<j>:  (a) exactly one tensor is cut by splitEqual and it is the leader the directive of THIS level names;
+    (b) every other tensor is cut by splitNonUniform against the root fiber of a tensor of that leader whose top rank is
+    R<j> (the boundaries the leader's split at this level produced); (c) each split turns the rank the directive list says
+    into the two ranks it says.  The partition SIZE is not checked: it does not influence the result."""
     tab = dynamic_table(part)
     if not tab:
         return []
     bad = []
-    seen_leader = set()
+    equal_by = {}        # R<j> -> set of tensors cut by splitEqual
     for rec in occupancy_splits(text, input_ids, tensors):
         where = "line %d (%s on a tensor of %s)" % (rec["line"], rec["kind"], rec["tensor"])
         old, new = rec["old_ids"], rec["new_ids"]
@@ -188,16 +193,13 @@ def leader_follower_ok(text, part, input_ids, tensors, out):
             bad.append("%s: the output is split dynamically" % where)
             continue
         a = rec["arg"]
-        if rec["tensor"] == d["leader"]:
-            seen_leader.add(up)
-            if rec["kind"] != "splitEqual":
-                bad.append("%s: the leader %s of %s is split as a follower" % (where, d["leader"], up))
-            elif not ((isinstance(a, ast.Constant) and str(a.value) == d["size"]) or (isinstance(a, ast.Name) and a.id == d["size"])):
-                bad.append("%s: leader split of %s with size %s, the directive says %s" % (where, up, ast.unparse(a) if a else None, d["size"]))
+        if rec["kind"] == "splitEqual":
+            equal_by.setdefault(up, set()).add(rec["tensor"])
+            if rec["tensor"] != d["leader"]:
+                bad.append("%s: %s is not the leader of %s (%s is) but is cut by splitEqual" % (where, rec["tensor"], up, d["leader"]))
         else:
-            if rec["kind"] != "splitNonUniform":
-                bad.append("%s: %s is not the leader of %s (%s is) but is split by splitEqual" % (where, rec["tensor"], up, d["leader"]))
-                continue
+            if rec["tensor"] == d["leader"]:
+                bad.append("%s: the leader %s of %s is cut as a follower" % (where, d["leader"], up))
             g = rec["getroot_of"]
             if g is None:
                 bad.append("%s: follower split of %s against `%s`, which is not the root fiber of a tensor" % (where, up, ast.unparse(a) if a else None))
@@ -209,4 +211,7 @@ def leader_follower_ok(text, part, input_ids, tensors, out):
             elif not gids or gids[0] != up:
                 bad.append("%s: follower split of %s against the %s fiber of the leader, which is not the leader's split at this level (%s)"
                            % (where, up, (gids or ["?"])[0], up))
+    for up, ts in sorted(equal_by.items()):
+        if len(ts) > 1:
+            bad.append("level %s: several tensors are cut by splitEqual (%s) - their boundaries differ" % (up, ", ".join(sorted(ts))))
     return bad
